@@ -55,7 +55,8 @@ func TestCheck(t *testing.T) {
 		"blocktransactions commit orders: each ingest range in its own batch, all orders; batches holding several ranges produce a subset of these crash images",
 		"cancel-at-read injections race with the source goroutine (free-running after the injection); outcomes are checked, not the exact emission count",
 		"statedifflength: the assignment of blocks to the per-worker batches follows two release policies (lowest / highest parked block first), not all assignments; its writes are per-block idempotent",
-		"part b runs the real historyprunner (retainedBlocks as configured, min-age 0, L1 head = chain tip) on the chains named 'prune-mode toggled', where each process start chooses the flag; headstate is a disabled placeholder (its flag combinations are covered on the runner in part a)",
+		"part b runs the real historyprunner (retainedBlocks as configured, min-age 0, L1 head = chain tip) on the chains named 'prune-mode toggled', where each process start chooses off / on with the chain's retained value R / on with a window longer than the chain (len+100); other retained values (cutoff moving up or down by a few blocks between starts) are not enumerated; headstate is a disabled placeholder (its flag combinations are covered on the runner in part a)",
+		"images behind the reported half-pruned no-op case (abrupt interruption of a started prune, then a start with the long window) are tainted: explored for crashes / refusals, their content is not judged again",
 		"old-layout chains carry one legacy history entry per storage / nonce diff (the layout pruner/testutils writes), which the history-prune migration stages and restores",
 	)
 	checkProductionRegistry(r)
@@ -125,6 +126,6 @@ func TestCheck(t *testing.T) {
 	r.Set("distinct_nontrivial", r.Get("states"))
 	r.Set("traces_validated_against_impl", r.Get("evaluations"))
 	r.Set("rule", "a: BFS over (durable image, completed set): every process start = registry (1..4 migrations x optional flags) x one scripted outcome per Migrate/Before call (19 outcomes) x crash after / failure of every commit; "+
-		"b: BFS over durable images of old-layout chains: every commit order of the ingest ranges x {uninterrupted, crash after each commit, cancel at each commit, cancel at first read of each work item (bt range, sdl / stager / restorer block), cancel before run, failure of each commit} x --prune-mode flag per process start on the prune chains, <=2 interruptions then a clean run (second process start: 4 commit orders thorough; quick tier: 2 orders and only crash / cancel-at-commit; runner BFS depth 3 quick / 4 thorough process starts); non-trivial = distinct durable images")
+		"b: BFS over durable images of old-layout chains: every commit order of the ingest ranges x {uninterrupted, crash after each commit, cancel at each commit, cancel at first read of each work item (bt range, sdl / stager / restorer block), cancel before run, failure of each commit} x prune configuration {off, on R, on window > chain} per process start on the prune chains, <=2 interruptions then a clean run (second process start: 4 commit orders thorough; quick tier: 2 orders and only crash / cancel-at-commit; runner BFS depth 3 quick / 4 thorough process starts); non-trivial = distinct durable images")
 	r.Finish()
 }
